@@ -31,6 +31,15 @@ def main():
         sys.exit(0)
     h = importlib.import_module('tv.harness.' + a.pid)
     cases = h.cases(tier, seed)
+    if tier == 'thorough' and getattr(h, 'THOROUGH_SEEDS', 1) > 1:
+        # thorough: union of the sampled structures of several seeds (deduplicated)
+        seen = {json.dumps(c, sort_keys=True) for c in cases}
+        for i in range(1, h.THOROUGH_SEEDS):
+            for c in h.cases(tier, seed + 1000 * i):
+                k = json.dumps(c, sort_keys=True)
+                if k not in seen:
+                    seen.add(k)
+                    cases.append(c)
     if a.only:
         cases = [c for c in cases if a.only in json.dumps(c)]
     if a.limit:
